@@ -15,7 +15,9 @@ cp "$here/known_findings.json" "$tmp/verif/"
 (cd "$tmp/repo" && patch -p1 -s < "$d/patch.diff") || { echo "RESULT $d patch-does-not-apply"; exit 3; }
 (cd "$tmp/repo" && go build ./...) || { echo "RESULT $d does-not-compile"; exit 3; }
 suite=pass
+if [ -n "${EQ_NOSUITE:-}" ]; then suite=skipped; else
 (cd "$tmp/repo" && go test -vet=off -count=1 ./... >/dev/null 2>&1) || { (cd "$tmp/repo" && go test -vet=off -count=1 ./... >/dev/null 2>&1) || suite=FAIL; }
+fi
 noisy=""
 for p in "$@"; do
   out=$(GOFLAGS=-mod=vendor "${KX_BIN:-$here/bin/kxcheck}" -prop "$p" -repo "$tmp/repo" -verif "$tmp/verif" 2>&1)
